@@ -1689,7 +1689,12 @@ func (self *_Assembler) _asm_OP_map_key_utext_p(p *_Instr) {
 }
 
 func (self *_Assembler) _asm_OP_array_skip(_ *_Instr) {
-	self.call_sf(_F_skip_array)          // CALL_SF skip_array
+	// skip_array starts in the "first element or ']'" state: a ']' right after the ',' that
+	// follows the last decoded element (a trailing comma) must not close the array
+	self.lspace("_array_skip_{n}")                           // LSPACE
+	self.Emit("CMPB", jit.Sib(_IP, _IC, 1, 0), jit.Imm(']')) // CMPB    (IP)(IC), $']'
+	self.Sjmp("JE", _LB_char_0_error)                        // JE      _char_0_error
+	self.call_sf(_F_skip_array)                              // CALL_SF skip_array
 	self.Emit("TESTQ", _AX, _AX)         // TESTQ   AX, AX
 	self.Sjmp("JS", _LB_parsing_error_v) // JS      _parse_error_v
 }
